@@ -7,6 +7,7 @@ import sysconfig
 import traceback
 from collections.abc import Callable, Iterable
 from dataclasses import dataclass
+from fractions import Fraction
 from functools import partial, reduce
 from itertools import accumulate
 from math import prod
@@ -303,10 +304,10 @@ def convert_to_bytes(size: int | float | str) -> int:
 
         # check if the format of the string is valid
         if is_numeric_str(size):
-            unit_factor = 1.0
+            unit_factor = 1
             value = size
-        elif size[-1] == "B" and is_numeric_str(size[:-1]):
-            unit_factor = 1.0
+        elif size.endswith("B") and is_numeric_str(size[:-1]):
+            unit_factor = 1
             value = size[:-1]
         elif size[-2:] in units and is_numeric_str(size[:-2]):
             unit = size[-2:]
@@ -317,8 +318,18 @@ def convert_to_bytes(size: int | float | str) -> int:
                 f"Invalid value: {size}. Expected the string to be a numeric value ending with an SI prefix."
             )
 
-        # convert to float number of bytes
-        size = float(value) * unit_factor
+        # convert to an exact number of bytes (float arithmetic is inexact for large or fractional values)
+        try:
+            exact_size = Fraction(value) * unit_factor
+        except (ValueError, ZeroDivisionError, OverflowError):
+            raise ValueError(
+                f"Invalid value: {size}. Expected a finite numeric value."
+            ) from None
+        if exact_size.denominator != 1:
+            raise ValueError(
+                f"Invalid value: {size}. Can't have a non-integer number of bytes"
+            )
+        size = int(exact_size)
 
     if isinstance(size, float):
         if size.is_integer():
